@@ -34,7 +34,16 @@ CFG = dict(
                          "crud:histories": 200, "crud:referenced:refused": 600,
                          "crud:op-on-unreferenced-entity": 900, "crud:live-assignment-rechecks": 6000,
                          "unit:option:as-path-set:all": 10, "unit:option:community-set:invert": 10,
-                         "unit:option:prefix-set:invert": 15}),
+                         "unit:option:prefix-set:invert": 15,
+                         # prefix-set shapes: entries whose range starts / lies below their own length, default-route
+                         # entries, routes shorter than / equal to / one bit longer than an entry on the same chain
+                         "prefix:longer-entry-admits-route-length": 50,
+                         "prefix:entry-range-starts-below-own-length": 900,
+                         "prefix:entry-range-entirely-below-own-length": 400,
+                         "prefix:zero-entry-v4": 250, "prefix:zero-entry-v6": 60,
+                         "prefix:route-shorter-than-every-entry:on-chain": 250,
+                         "prefix:route-equals-entry": 50, "prefix:route-one-bit-longer-than-entry": 35,
+                         "prefix:cond-on-v6-route": 250}),
     quick=[e1("all", "c14", "debug", 1, 40), e1("all", "c14", "release", 1, 40)],
     thorough=[e1("unit", "c14", "debug", 2, 200, part="unit"),
               e1("unit-rel", "c14", "release", 2, 200, part="unit"),
